@@ -20,7 +20,7 @@ def prepare():
     if not os.path.isdir(SV):
         print(sh(['git', '-C', ROOT, 'worktree', 'add', '--detach', SV, 'HEAD']).stdout)
     else:
-        sh(['git', '-C', SV, 'checkout', '-q', '--detach', sh(['git', '-C', ROOT, 'rev-parse', 'HEAD']).stdout.strip()])
+        sh(['git', '-C', SV, 'checkout', '-q', '-f', '--detach', sh(['git', '-C', ROOT, 'rev-parse', 'HEAD']).stdout.strip()])
     if not os.path.isdir(SR):
         print(sh(['git', '-C', '/repo', 'worktree', 'add', '--detach', SR, 'HEAD']).stdout)
     else:
